@@ -129,6 +129,7 @@ var c11Ops = []c11Op{
 		}
 		return res
 	}},
+	{"validate-typename-everywhere", c11Validate(`{ __typename pet { __typename owner { __typename pets { __typename } } } node(id: 1) { __typename } named { __typename } search { __typename } trio { __typename ... on Robot { __typename } } }`)},
 	{"validate-suggestions", c11Validate(`{ nam pett { id } node(idd: 1) { id } search(q: 1, ks: [DOGG]) { __typename } ... on Pett { id } }`)},
 	{"validate-introspection", c11Validate(`{ __schema { types { ...T } } __type(name: "Pet") { fields { name } } } fragment T on __Type { name fields { name } }`)},
 	{"validate-variables", c11Validate(c11VarsDoc)},
